@@ -164,6 +164,9 @@ Proof.
     + destruct (first_unknown (fnames fs) (map fst l)) as [u|] eqn:Eu; [|discriminate].
       inversion H; subst. apply first_unknown_some in Eu as [Hin Hm].
       exists [PField u]. split; [reflexivity | apply bad_unknown; assumption].
+  - (* TRawList *) intros d p k q H. destruct d; simpl in H; inversion H; subst; apply here_mismatch; reflexivity.
+  - (* TRawDict *) intros d p k q H. destruct d; simpl in H; inversion H; subst; apply here_mismatch; reflexivity.
+  - (* TRawTuple *) intros d p k q H. destruct d; simpl in H; inversion H; subst; apply here_mismatch; reflexivity.
   - (* TNil *) intros l i p k q H. simpl in H. discriminate.
   - (* TCons *) intros t IHt ts IHts l i p k q H Hl.
     destruct l as [|e l]; simpl in H, Hl; [discriminate|].
@@ -321,6 +324,24 @@ Qed.
 Lemma to_data_null : forall v, to_data v = JNull -> v = VNull.
 Proof. destruct v; simpl; intro H; try discriminate; reflexivity. Qed.
 
+Lemma map_embed_plain : forall l, Forall plain (map embed l).
+Proof. intro l. apply Forall_forall. intros x Hx. apply in_map_iff in Hx as (y & <- & _). apply embed_plain. Qed.
+Lemma map_embed_plain_kv : forall l : list (str * jval),
+  Forall (fun kv => plain (snd kv)) (map (fun kv => (fst kv, embed (snd kv))) l).
+Proof. intro l. apply Forall_forall. intros x Hx. apply in_map_iff in Hx as (y & <- & _). apply embed_plain. Qed.
+Lemma map_to_data_embed : forall l, map to_data (map embed l) = l.
+Proof. induction l as [|x l IH]; simpl; [reflexivity|]. rewrite to_data_embed, IH. reflexivity. Qed.
+Lemma map_to_data_embed_kv : forall l : list (str * jval),
+  map (fun kv => (fst kv, to_data (snd kv))) (map (fun kv => (fst kv, embed (snd kv))) l) = l.
+Proof. induction l as [|[k x] l IH]; simpl; [reflexivity|]. rewrite to_data_embed, IH. reflexivity. Qed.
+Lemma map_embed_to_data : forall l, Forall plain l -> map embed (map to_data l) = l.
+Proof. induction 1 as [|x l Hx _ IH]; simpl; [reflexivity|]. rewrite embed_to_data, IH by assumption. reflexivity. Qed.
+Lemma map_embed_to_data_kv : forall l : list (str * cval), Forall (fun kv => plain (snd kv)) l ->
+  map (fun kv => (fst kv, embed (snd kv))) (map (fun kv => (fst kv, to_data (snd kv))) l) = l.
+Proof.
+  induction 1 as [|[k x] l Hx _ IH]; simpl in *; [reflexivity|]. rewrite embed_to_data, IH by assumption. reflexivity.
+Qed.
+
 (* parse yields values of the declared type *)
 Definition ht_spec_ty (T : cty) : Prop :=
   wf_ty T -> forall d p v, parse T d p = Ok v -> has_type T v.
@@ -368,6 +389,9 @@ Proof.
     apply rbind_ok in H as (items & Hi & H).
     destruct (first_unknown (fnames fs) (map fst l)); [discriminate|]. inversion H; subst.
     constructor. eapply IH; eassumption.
+  - intros _ d p v H. destruct d; simpl in H; inversion H. constructor. apply map_embed_plain.
+  - intros _ d p v H. destruct d; simpl in H; inversion H. constructor. apply map_embed_plain_kv.
+  - intros _ d p v H. destruct d; simpl in H; inversion H. constructor. apply map_embed_plain.
   - intros _ l i p vs H Hl. simpl in H. inversion H. constructor.
   - intros t IHt ts IHts Hw l i p vs H Hl. inversion Hw; subst.
     destruct l as [|e l]; simpl in H, Hl; [discriminate|].
@@ -461,6 +485,9 @@ Proof.
       { apply first_unknown_none. intros k Hk. apply mem_In. assumption. }
       rewrite Eu. reflexivity.
     + intros n v Hin. apply assoc_in_nodup; [rewrite Hn|]; assumption.
+  - intros _ v p H. inversion H; subst. simpl. rewrite map_embed_to_data by assumption. reflexivity.
+  - intros _ v p H. inversion H; subst. simpl. rewrite map_embed_to_data_kv by assumption. reflexivity.
+  - intros _ v p H. inversion H; subst. simpl. rewrite map_embed_to_data by assumption. reflexivity.
   - intros _ vs i p H. inversion H; reflexivity.
   - intros t IHt ts IHts Hw vs i p H. inversion Hw; subst. inversion H; subst. simpl.
     rewrite IHt by assumption. simpl. rewrite IHts by assumption. reflexivity.
@@ -521,6 +548,9 @@ Proof.
     apply rbind_ok in H as (items & Hi & H).
     destruct (first_unknown (fnames fs) (map fst l)) eqn:Eu; [discriminate|]. inversion H; subst.
     simpl. constructor; [apply first_unknown_none; assumption | eapply IH; eassumption].
+  - intros d p v H. destruct d; simpl in H; inversion H. simpl. rewrite map_to_data_embed. constructor.
+  - intros d p v H. destruct d; simpl in H; inversion H. simpl. rewrite map_to_data_embed_kv. constructor.
+  - intros d p v H. destruct d; simpl in H; inversion H. simpl. rewrite map_to_data_embed. constructor.
   - intros l i p vs H Hl. simpl in H. inversion H. destruct l; [constructor | discriminate].
   - intros t IHt ts IHts l i p vs H Hl.
     destruct l as [|e l]; simpl in H, Hl; [discriminate|].
